@@ -172,6 +172,47 @@ std::unique_ptr<trompeloeil::expectation> vp_build_full(vp_M& m, trompeloeil::se
 {
   return NAMED_REQUIRE_CALL(m, f(trompeloeil::_)).WITH(_1 > 0).WITH(_1 < 9).LR_SIDE_EFFECT(g = g * 2).LR_SIDE_EFFECT(g = g + 1).TIMES(2, 5).IN_SEQUENCE(s1, s2).LR_RETURN(_1 + g);
 }
+// C09: whole scenarios written against the public macros (nothing but API use); the harness supplies symbolic values and reads the observations
+struct vp_M9 {
+  MAKE_MOCK3(h, int(int&, int*, int const&));
+  MAKE_MOCK1(r, int&(int&));
+  MAKE_MOCK0(z, int());
+  MAKE_CONST_MOCK2(c, void(int, int&));
+};
+struct vp_obs { int ret, x, y, extra; };
+void vp_c09_alias(int x0, int y0, int z0, int k, vp_obs& o)
+{
+  vp_M9 m; int x = x0, y = y0; const int z = z0;
+  int local = k;
+  REQUIRE_CALL(m, h(trompeloeil::_, trompeloeil::_, trompeloeil::_))
+    .LR_WITH(&_3 == &z)
+    .SIDE_EFFECT(_1 = _1 + local)
+    .LR_SIDE_EFFECT(*_2 = local)
+    .RETURN(_3 + local);
+  local = k + 100;
+  o.ret = m.h(x, &y, z);
+  o.x = x; o.y = y; o.extra = local;
+}
+void vp_c09_lr_return(int x0, int k, vp_obs& o)
+{
+  vp_M9 m; int x = x0; int local = k; int* p = nullptr;
+  REQUIRE_CALL(m, r(trompeloeil::_)).LR_WITH(&_1 == p).LR_RETURN(_1);
+  p = &x; local = x0;
+  int& rr = m.r(x);
+  rr = rr + 1;
+  o.x = x; o.ret = (&rr == &x);
+  ALLOW_CALL(m, z()).RETURN(local);
+  local = local + 5;
+  o.y = m.z();
+}
+void vp_c09_positions(int x0, int y0, vp_obs& o)
+{
+  const vp_M9 m; int a = x0, b = y0;
+  o.extra = 0;
+  REQUIRE_CALL(m, c(trompeloeil::_, trompeloeil::_)).LR_SIDE_EFFECT(o.extra = _1).SIDE_EFFECT(_2 = _1 + 7).SIDE_EFFECT(_1 = 0);
+  m.c(a, b);
+  o.x = a; o.y = b; o.ret = 0;
+}
 void vp_build_objects()
 {
   vp_M m; trompeloeil::sequence s;
